@@ -89,7 +89,27 @@ func (in *c07Inst) setModel(r, c uint64) bool {
 	return true
 }
 
+// Apply runs one operation. Reads are operations of their own (they move hidden state). Every
+// NON-read operation of a bit-level fragment is additionally followed by a storage-level
+// enumeration (fragment.forEachBit: a container iterator — it touches neither the row cache nor
+// the B-tree lookaside) compared with the model, so a write that went astray is caught at the
+// write, one step earlier than by the next read operation.
 func (in *c07Inst) Apply(op vx.Op) (got, want string) {
+	got, want = in.apply0(op)
+	if in.kind == vxKindBSI || strings.HasPrefix(op.Name, "r") && op.Name != "roaring" && op.Name != "reopen" && op.Name != "runQueued" {
+		return got, want
+	}
+	if got != want {
+		return got, want
+	}
+	fm := map[vxBit]bool{}
+	if err := in.f.forEachBit(func(r, c uint64) error { fm[vxBit{r, c}] = true; return nil }); err != nil {
+		return got + " | forEachBit: " + err.Error(), want + " | storage=" + vxModelBits(in.model)
+	}
+	return got + " | storage=" + vxModelBits(fm), want + " | storage=" + vxModelBits(in.model)
+}
+
+func (in *c07Inst) apply0(op vx.Op) (got, want string) {
 	f := in.f
 	switch op.Name {
 	case "setBit":
@@ -450,7 +470,7 @@ func TestVerif_C07(t *testing.T) {
 	}
 	c.AddValidated(c.Evaluations)
 	c.Assume("2-3 rows x boundary columns of shard 0; background snapshot modelled as an explicit event run by the harness from the fragment's own queue")
-	c.Assume("phase B (state-merged BFS) cannot see the B-tree lookaside cache of the storage bitmap (unexported in package roaring): states differing only there are merged; lookaside-dependent behaviour is decided by phase A here and by C02 at the roaring level")
+	c.Assume("the state fingerprint of phase B includes the B-tree lookaside cache of the storage bitmap, read through reflection (unexported in package roaring); should those fields disappear, states differing only there would be merged again and lookaside-dependent behaviour would be decided by phase A here and by C02 at the roaring level")
 	if c.Finish() != 0 {
 		t.Fail()
 	}
